@@ -110,12 +110,16 @@ func pbRequirements(p *Pom) *pb.Requirements {
 	}
 	for i := range p.Profiles {
 		pr := &p.Profiles[i]
-		// The activation message is always present (mavenRequirementsToProject
-		// reads it without a nil check; a profile without <activation> gets an
-		// empty one). Only in-domain lineages are served: no JDK, no OS.
+		// A profile without <activation> has no activation message (the
+		// natural proto3 encoding of an absent element). Only in-domain
+		// lineages are served: no JDK, no OS.
+		var act *pb.Requirements_Maven_Profile_Activation
+		if pr.Default != "" {
+			act = &pb.Requirements_Maven_Profile_Activation{ActiveByDefault: pr.Default}
+		}
 		m.Profiles = append(m.Profiles, &pb.Requirements_Maven_Profile{
 			Id:                   pr.ID,
-			Activation:           &pb.Requirements_Maven_Profile_Activation{ActiveByDefault: pr.Default},
+			Activation:           act,
 			Dependencies:         pbDependencies(pr.Deps),
 			DependencyManagement: pbDependencies(pr.Mgmt),
 			Properties:           pbProperties(pr.Props),
